@@ -117,3 +117,20 @@ def flaky(fail_times=1, x=0):
     finally:
         if h:
             h("exit", inv, n)
+
+
+# --- C05: outcome-scripted body --------------------------------------------------------------------
+OUTCOME_BOX = [None]      # ('value', v) | ('exc', e) used by the next execution (in-process stepping / controlled runs)
+OUTCOME_SCRIPT = {}       # n -> ['value'|'exc', payload str]  (process mode: the script travels by file)
+
+
+def scripted_outcome(n=0):
+    if n in OUTCOME_SCRIPT:
+        kind, payload = OUTCOME_SCRIPT[n]
+        if kind == "value":
+            return payload
+        raise ValueError(payload)
+    kind, val = OUTCOME_BOX[0]
+    if kind == "value":
+        return val
+    raise val
